@@ -23,24 +23,40 @@ def bx_decode(s):
     return bytes(out)
 
 
+PERIODS = (1, 2, 3, 4, 6, 8, 12, 16, 20, 24, 28, 32, 36, 40, 48)
+
+
 def bx_chunks(b, minrun=24):
-    """[(bytes literal)] / [(pattern, n)] chunks with long runs compressed"""
+    """[(bytes literal)] / [(pattern, n)] chunks; long runs of one byte and, for long inputs,
+    long repetitions of a short pattern are compressed"""
     chunks = []
     lit = bytearray()
     i = 0
     n = len(b)
+    periodic = n > 1500
     while i < n:
-        j = i
-        while j < n and b[j] == b[i]:
-            j += 1
-        if j - i >= minrun:
+        best = (0, 1)
+        for p in (PERIODS if periodic else (1,)):
+            if i + 2 * p > n:
+                break
+            pat = b[i:i + p]
+            k = 1
+            while b[i + k * p:i + (k + 1) * p] == pat:
+                k += 1
+            if k * p > best[0] and k >= 2:
+                best = (k * p, p)
+            if p == 1 and k >= minrun:
+                break
+        cover, p = best
+        if cover >= (minrun if p == 1 else max(64, 4 * p)):
             if lit:
                 chunks.append(bytes(lit))
                 lit = bytearray()
-            chunks.append((bytes([b[i]]), j - i))
+            chunks.append((bytes(b[i:i + p]), cover // p))
+            i += cover
         else:
-            lit += b[i:j]
-        i = j
+            lit.append(b[i])
+            i += 1
     if lit:
         chunks.append(bytes(lit))
     return chunks
@@ -178,15 +194,30 @@ def coq_subs(subs):
 
 
 def coq_dec(text):
-    """decoded-message text of the harness (`H .. ; sub ; ITERPANIC ..` or `ERR n`) -> Coq `dec`"""
+    """decoded-message text of the harness (`H .. ; sub ; ITERPANIC ..`, `ERR n`, `PANIC`) -> Coq `dec`"""
     text = text.strip()
     if text.startswith("ERR"):
         return "(Err %s)" % text.split()[1]
+    if text.startswith("PANIC"):
+        return "(Panic 0)"
     m = parse_msg_text(text)
-    items = []
-    for s in m[3]:
-        items.append("Panic 0" if s[0] == "ITERPANIC" else "Ok (%s)" % coq_sub(s))
-    return "(Ok (%s, [%s]))" % (coq_hdr(m), "; ".join(items))
+    items = ["Panic 0" if s[0] == "ITERPANIC" else "Ok (%s)" % coq_sub(s) for s in m[3]]
+    # long runs of identical submessages (floods) as `repeat`
+    groups = []
+    i = 0
+    while i < len(items):
+        j = i
+        while j < len(items) and items[j] == items[i]:
+            j += 1
+        if j - i >= 16:
+            groups.append("repeat (%s) (Z.to_nat %d)" % (items[i], j - i))
+        elif groups and groups[-1].startswith("["):
+            groups[-1] = groups[-1][:-1] + "; " + "; ".join(items[i:j]) + "]"
+        else:
+            groups.append("[" + "; ".join(items[i:j]) + "]")
+        i = j
+    lst = " ++ ".join(groups) if groups else "[]"
+    return "(Ok (%s, (%s : list (res usub))))" % (coq_hdr(m), lst)
 
 
 # ------------------------------------------------------------------- generators
